@@ -437,8 +437,52 @@ impl C08 {
             ("MOD", BinOp::Mod),
             ("^", BinOp::Pow),
         ];
-        let which = rng.usize(9);
-        let (text, model): (String, mv::MR<V>) = if which < 6 {
+        let which = rng.usize(13);
+        let (text, model): (String, mv::MR<V>) = if which == 9 {
+            // FOR / NEXT on an Integer variable: the increment is Integer arithmetic like any other
+            let a0 = *rng.pick(&[32760i32, 32766, 32767, -32768, -32767, -32760, 0, 30000, -30000, 1]);
+            let c = *rng.pick(&[1i32, -1, 2, 7, 100, 20000, -20000, 32767, -32768]);
+            let b0 = *rng.pick(&[32767i32, 32766, -32768, -32767, 0, 32760, -32760]);
+            let mut i = a0 as i64;
+            let mut res: mv::MR<V> = Err(MErr::Unspec);
+            for _ in 0..100_000 {
+                let n = i + c as i64;
+                if !(-32768..=32767).contains(&n) {
+                    res = mv::err(Code::Overflow);
+                    break;
+                }
+                i = n;
+                if (c < 0 && i < b0 as i64) || (c >= 0 && i > b0 as i64) {
+                    res = Ok(V::I(i as i16));
+                    break;
+                }
+            }
+            let var = *rng.pick(&["I%", "K9%", "J%"]);
+            let start = if a0 == -32768 { "-32767-1".to_string() } else { a0.to_string() };
+            let limit = if b0 == -32768 { "-32767-1".to_string() } else { b0.to_string() };
+            let step = if c == -32768 { "-32767-1".to_string() } else { c.to_string() };
+            (format!("FOR {}={} TO {} STEP {}:NEXT:PRINT {}", var, start, limit, step, var), res)
+        } else if which == 10 {
+            let (t, op) = forms[rng.usize(5)];
+            (
+                format!("DEFINT A-B:A={}:B={}:PRINT A {} B", a, b, t).replace("=-32768", "=-32767-1"),
+                mv::binop(op, &V::I(a), &V::I(b)),
+            )
+        } else if which == 11 {
+            let (t, op) = forms[rng.usize(3)];
+            (
+                format!("Q%(3)={}:Q%(3)=Q%(3) {} {}:PRINT Q%(3)", a, t, if b < 0 { format!("({})", b) } else { b.to_string() }).replace("-32768", "-32767-1"),
+                mv::binop(op, &V::I(a), &V::I(b)),
+            )
+        } else if which == 12 {
+            // not-a-number and infinities never become Integers
+            let e = *rng.pick(&["0/0", "SQR(-1)", "LOG(-1)", "1/0", "-1/0", "1E38*10", "Z/Z"]);
+            let f = *rng.pick(&["C%={}:PRINT C%", "PRINT CINT({})", "PRINT 1\\({})", "PRINT ({}) MOD 2", "DIM R(3):PRINT R({})", "PRINT 1 AND ({})"]);
+            let text = f.replace("{}", e);
+            // an array subscript may also say SUBSCRIPT OUT OF RANGE; everything else must be OVERFLOW
+            let m = if f.starts_with("DIM") { Err(MErr::Any) } else { mv::err(Code::Overflow) };
+            (text, m)
+        } else if which < 6 {
             let (t, op) = forms[which];
             let b2 = if op == BinOp::Pow { (b as i32).rem_euclid(18) as i16 } else { b };
             (
@@ -485,6 +529,12 @@ impl C08 {
             Ok(V::I(n)) => format!("{}{} \nREADY.\n<STOPPED>", if *n < 0 { "-" } else { " " }, (*n as i32).abs()),
             Ok(_) => return,
             Err(MErr::Code(c)) => format!("?{}\nREADY.\n<STOPPED>", c.name()),
+            Err(MErr::Any) => {
+                if !out.starts_with('?') {
+                    ctx.violation("pipeline-mismatch", &format!("pipeline:{}", which), &format!("{:?} printed {:?}, expected a BASIC error", text, out), &text);
+                }
+                return;
+            }
             Err(_) => return,
         };
         if out != expect {
